@@ -247,6 +247,10 @@ def compare_with_oracle(lib, ora, tol=1e-9, lenient=False):
                 continue
             scale = max(1.0, abs(o["start"][0]), abs(o["start"][1]), abs(o["end"][0]), abs(o["end"][1]))
             t_arc = tol
+            if lenient and math.hypot(o["start"][0] - o["end"][0], o["start"][1] - o["end"][1]) <= 1e-11 * scale:
+                # endpoints closer than the library's point tolerance (1e-12): it draws nothing where the exact rule draws
+                # the whole ellipse; which of the two is a matter of C05 (coincident endpoints), not of what was retained
+                continue
             if lenient and (cen is None or max(cen["rx"], cen["ry"]) > 1e9 * min(cen["rx"], cen["ry"], scale)
                             or abs(o["rotation"]) > 1e6):
                 # zero radius: judged by C01; radii beyond 1e9 x the rest of the figure: the centre form
@@ -1502,7 +1506,16 @@ def _arc_fixed_by_12_digits(mod, p, i, r, s):
     """would printing the radii/rotation of arc i with more digits than the six of %G make this round trip succeed?
     12 digits (the coordinate format) are tried first; an arc whose radii were scaled up to just span its chord
     (F.6.6) is ill-conditioned in the radii and needs all 17 - the root cause is the same: the text of the radii"""
-    return _arc_fixed_by_digits(mod, p, i, 12) or _arc_fixed_by_digits(mod, p, i, 17)
+    if _arc_fixed_by_digits(mod, p, i, 12) or _arc_fixed_by_digits(mod, p, i, 17):
+        return True
+    # direct criterion: did %G (6 digits) drop digits of this arc's radii or rotation that the 12-digit coordinate
+    # format would have kept?  Then the text of the radii is the cause, however ill-conditioned the arc is.
+    try:
+        a = list(abs(p))[i]
+        vals = (a.rx, a.ry, a.get_rotation().as_degrees)
+        return any(("%G" % v) != ("%.12G" % v) for v in vals)
+    except Exception:
+        return False
 
 
 def _arc_fixed_by_digits(mod, p, i, digits):
